@@ -24,6 +24,7 @@ type pipeScn struct {
 	Files       []pipeFile `json:"files"`
 	Stop        bool       `json:"stop"`
 	Cmd         string     `json:"cmd"`
+	Other       string     `json:"other"`
 	Predicted   string     `json:"predicted"`
 	SevereFiles []int      `json:"severeFiles"`
 	Fatal       bool       `json:"fatal"`
@@ -110,6 +111,8 @@ func writeScenario(dir string, scn *pipeScn, id int) []string {
 					docs = append(docs, fmt.Sprintf(badSchemaDocs[(id+i+k)%len(badSchemaDocs)], k))
 				case "fatal":
 					docs = append(docs, goodDocs["g4"])
+				case "nokindDoc":
+					docs = append(docs, nokindFiles[(id+i+k)%2])
 				default:
 					docs = append(docs, goodDocs[d])
 				}
@@ -140,7 +143,10 @@ func diffRows(d *run.DiffObs) []string {
 	return rows
 }
 
-func runPipe(em *emitter, root string, id int, scn pipeScn, baseDir, otherDir string, baseList []string, baseDiff1, baseDiff2 []string) {
+func runPipe(em *emitter, root string, id int, scn pipeScn, baseDir, otherDir, otherJunkDir string, baseList []string, baseDiff1, baseDiff2 []string) {
+	if scn.Other == "junk" {
+		otherDir = otherJunkDir
+	}
 	w := &world.World{M: 3, NAddr: 2}
 	w.Normalize()
 	conc := world.NewConc(w, 1)
@@ -250,6 +256,12 @@ func cmdPipeline(args []string) int {
 	os.MkdirAll(otherDir, 0o755)
 	os.WriteFile(filepath.Join(baseDir, "all.yaml"), []byte(strings.Join([]string{goodDocs["g1"], goodDocs["g2"], goodDocs["g3"], goodDocs["g4"]}, "---\n")), 0o644)
 	os.WriteFile(filepath.Join(otherDir, "all.yaml"), []byte(strings.Join([]string{goodDocs["g1"], goodDocs["g2"], goodDocs["g3"], otherPolicy}, "---\n")), 0o644)
+	// the same other directory with two unreadable items of its own: a YAML file that is not a manifest, and a document that is
+	// not a manifest in front of the used manifests of the multi-document file
+	otherJunkDir := filepath.Join(root, "otherjunk")
+	os.MkdirAll(otherJunkDir, 0o755)
+	os.WriteFile(filepath.Join(otherJunkDir, "all.yaml"), []byte(strings.Join([]string{nokindFiles[0], goodDocs["g1"], goodDocs["g2"], goodDocs["g3"], otherPolicy}, "---\n")), 0o644)
+	os.WriteFile(filepath.Join(otherJunkDir, "zz-notes.yaml"), []byte(nokindFiles[1]), 0o644)
 	bl, _, _ := run.List(baseDir, w, conc, run.ListOpts{})
 	bd1, _ := run.Diff(baseDir, otherDir, w, conc, false, "")
 	bd2, _ := run.Diff(otherDir, baseDir, w, conc, false, "")
@@ -269,7 +281,7 @@ func cmdPipeline(args []string) int {
 			}
 			defer em.close()
 			for k := s; k < len(cs); k += *shards {
-				runPipe(em, filepath.Join(root, fmt.Sprintf("p%02d", s)), k, cs[k], baseDir, otherDir, baseList, baseDiff1, baseDiff2)
+				runPipe(em, filepath.Join(root, fmt.Sprintf("p%02d", s)), k, cs[k], baseDir, otherDir, otherJunkDir, baseList, baseDiff1, baseDiff2)
 			}
 		}(s)
 	}
